@@ -66,3 +66,65 @@ func longHalt(c *rig.Ctx) {
 		c.Exact(1)
 	})
 }
+
+// idleLengths: how a HALT ends does not depend on how long the CPU has been idle. For every
+// idle length 0..1100 (past any 8-bit count, and a few in the thousands) the CPU halts with IME
+// set, the request arrives after exactly that many idle cycles, and the number of machine cycles
+// until the handler's first instruction has executed must be the same as for the shortest idle.
+func idleLengths(c *rig.Ctx) {
+	c.Require("idle_length_cases")
+	lens := []int{}
+	for n := 0; n <= 1100; n++ {
+		lens = append(lens, n)
+	}
+	lens = append(lens, 4095, 4096, 65535, 65536, 65537)
+	c.Part("idle-lengths", int64(len(lens)), func(i int64, r *rig.Rng) {
+		n := lens[i]
+		measure := func(idle int, ime bool) (int, string) {
+			rom := rig.BlankROM(0, 0, 0)
+			rig.Put(rom, 0x50, 0x1c, 0xd9) // timer: INC E; RETI
+			rig.Put(rom, 0x100, 0x00, 0xc3, 0x50, 0x01)
+			en := uint8(0xf3)
+			if ime {
+				en = 0xfb
+			}
+			rig.Put(rom, 0x150, 0xf3, 0xaf, 0xe0, 0x0f, 0x31, 0xf0, 0xdf, 0x3e, 0x04, 0xe0, 0xff, 0xaf, 0xe0, 0x07, en, 0x00, 0x76, 0x04, 0x18, 0xfe)
+			m := rig.MustNew(rom, rig.Opts{})
+			for k := 0; k < 300 && !m.CPU.XHalted(); k++ {
+				m.Step()
+			}
+			if !m.CPU.XHalted() {
+				return -1, "HALT with nothing pending did not halt"
+			}
+			for k := 0; k < idle; k++ {
+				m.Step()
+			}
+			if !m.CPU.XHalted() {
+				return -1, "the CPU left HALT with nothing enabled pending"
+			}
+			b0, e0 := m.CPU.XGetRegs().B, m.CPU.XGetRegs().E
+			m.IRQ.RequestTimer()
+			for k := 1; k <= 20; k++ {
+				m.Step()
+				x := m.CPU.XGetRegs()
+				if (ime && x.E != e0) || (!ime && x.B != b0) {
+					return k, ""
+				}
+			}
+			return -1, "no wake-up within 20 cycles of the request"
+		}
+		for _, ime := range []bool{true, false} {
+			base, msg := measure(3, ime)
+			got, msg2 := measure(n, ime)
+			if msg == "" {
+				msg = msg2
+			}
+			if msg != "" || got != base {
+				c.Violate("halt-exit-depends-on-idle-length", fmt.Sprintf("HALT with IME=%v idle for %d machine cycles before the enabled request: %d cycles from the request to the first instruction executed after it, %d after 3 idle cycles %s", ime, n, got, base, msg), nil)
+				return
+			}
+		}
+		c.Count("idle_length_cases", 1)
+		c.Exact(1)
+	})
+}
